@@ -281,9 +281,10 @@ Print Assumptions C03_driver_chunking_independent_no_pauses.
    restricted to cuts that happen in a covered state (TreeSplitRun.covered_at: foster parenting off, the current node
    not a template element, the shape assumption of the mode, and the insertion mode "text", or "in body" /
    "in caption" / "in template" / "in cell" with an HTML adjusted current node, or - in any mode - a token handled by
-   the foreign-content rules).  Not covered: the table-text queue and its flush, the modes whose character arm answers
-   SplitWhitespace (initial .. after head, in column group, after body, the frameset and after-after modes), foster
-   parenting, a template element as the current node. *)
+   the foreign-content rules; or a token of WHITE SPACE ONLY in the modes whose character arm answers SplitWhitespace:
+   initial .. after head, in column group, after body, the frameset and after-after modes).  Not covered: the
+   table-text queue and its flush, tokens with other characters in the SplitWhitespace modes, foster parenting, a
+   template element as the current node. *)
 From HV Require Tree.TreeInvHelpers Tree.TreeInvMain Tree.TreeFrame Tree.TreeSplitBody Tree.TreeSplitRun.
 
 (* the event log of the model is write-only: a token processed from two states that differ only in the log (same
@@ -301,14 +302,16 @@ Proof. exact TreeSplit.log_irrelevant_holds. Qed.
 Print Assumptions C03_tree_event_log_is_write_only.
 
 (* "in body" and the modes that hand character tokens to it (in caption, in template, in cell - the last under the
-   shape assumption of that mode: a td / th element is open, which is carried through reconstruct): one character
-   token or two.  The second reconstruct-the-active-formatting-elements is a no-op, frameset-ok is the OR over the
+   shape assumption of that mode: a td / th element is open, which is carried through reconstruct; after body, after
+   after body, after after frameset for tokens of white space only): one character token or two.  The second reconstruct-the-active-formatting-elements is a no-op, frameset-ok is the OR over the
    pieces, the appends merge *)
 Theorem C03_tree_body_mode_split_partial :
   forall s line line' a b target,
     TreeInvDefs.TInv s ->
     TreeTypes.mode s = TreeTypes.InBody \/ TreeTypes.mode s = TreeTypes.InCaption \/ TreeTypes.mode s = TreeTypes.InTemplate \/
-    (TreeTypes.mode s = TreeTypes.InCell /\ TreeInvRules.Hshape s) ->
+    (TreeTypes.mode s = TreeTypes.InCell /\ TreeInvRules.Hshape s) \/
+    ((TreeTypes.mode s = TreeTypes.AfterBody \/ TreeTypes.mode s = TreeTypes.AfterAfterBody \/
+      TreeTypes.mode s = TreeTypes.AfterAfterFrameset) /\ TreeTypes.any_not_whitespace (a ++ b) = false) ->
     TreeTypes.foster_parenting s = false -> TreeInvHelpers.adjusted_ns s = TreeTypes.ns_html ->
     TreeTypes.vlast (TreeTypes.open_elems s) = Some target ->
     TreeSplit.is_template_node s target = false ->
@@ -530,3 +533,31 @@ Example C03_tree_split_example_cell_foreign :
   TreeSplitRun.splits_cov (TreeModel.init_state TreeInvMain.ex_opts) TreeSplitRun.ex_split_whole2 TreeSplitRun.ex_split_pieces2.
 Proof. exact TreeSplitRun.ex_split_covered2. Qed.
 Print Assumptions C03_tree_split_example_cell_foreign.
+
+(* ------------------------------------------------------------------ the tree builder's side: white space at the start *)
+(* coq/Tree/TreeSplitEarly.v: a character token of white space only in the modes that cut character tokens into runs
+   and ignore the white-space run (initial, before html, before head) or append it (in head, in head noscript, after
+   head, in column group, in frameset, after frameset): one token or two.  [earlyhyp]: TInv, the shape assumption,
+   the token is not handled by the foreign rules, and in the appending modes foster parenting off and a current node
+   that is not a template element.  _partial: tokens with other characters in these modes are not covered. *)
+From HV Require Tree.TreeSplitEarly.
+Theorem C03_tree_early_modes_whitespace_split_partial :
+  forall s line line' a b,
+    TreeSplitEarly.earlyhyp s -> TreeTypes.any_not_whitespace (a ++ b) = false -> a <> [] -> b <> [] ->
+    exists s1 sa s2,
+      TreeModel.process_token (TreeTypes.TChars (a ++ b)) line s = TreeTypes.Ok TreeTypes.SContinue s1 /\
+      TreeModel.process_token (TreeTypes.TChars a) line s = TreeTypes.Ok TreeTypes.SContinue sa /\
+      TreeModel.process_token (TreeTypes.TChars b) line' sa = TreeTypes.Ok TreeTypes.SContinue s2 /\
+      TreeSplit.same_core s1 s2 /\ TreeContractRun.dom_of s1 = TreeContractRun.dom_of s2 /\
+      TreeInvDefs.TInv s1 /\ TreeInvDefs.TInv s2.
+Proof. exact TreeSplitEarly.early_mode_split. Qed.
+Print Assumptions C03_tree_early_modes_whitespace_split_partial.
+
+(* the side condition of C03_tree_split_run_partial, enlarged accordingly, on a document with white space between all
+   its tags (a test, by computation): <!DOCTYPE html> LF SP <html> LF SP <head> LF SP </head> LF SP <body>x</body> LF SP
+   </html> LF SP EOF, every white-space token cut in two (before html, before head, in head, after head, after body,
+   after after body) *)
+Example C03_tree_split_example_whitespace :
+  TreeSplitRun.splits_cov (TreeModel.init_state TreeInvMain.ex_opts) TreeSplitRun.ex_split_whole3 TreeSplitRun.ex_split_pieces3.
+Proof. exact TreeSplitRun.ex_split_covered3. Qed.
+Print Assumptions C03_tree_split_example_whitespace.
